@@ -561,6 +561,8 @@ def generate(unit, template_path, canary=False):
             src = Source.get(spec["file"])
             a, e = src.find_item(spec["kind"], spec["name"])
             text = strip_attrs_and_docs(src.text[a:e])
+            # R0: restricted visibility has no run-time meaning; Verus wants `pub` for items named in pub specs
+            text = re.sub(r"^pub\s*\([^)]*\)", "pub", text, count=1)
             g.rewrites.append({"rule": "R0", "where": f"{spec['file']}:{line_of(src.text, a)}", "before": "attributes/doc comments", "after": "(dropped)"})
             g.emit_mapped(text, spec["file"], line_of(src.text, a))
         elif b[0] == "lemma":
